@@ -2,3 +2,7 @@ import GldapModel.Props.C11
 #print axioms Server.C11_progress
 #print axioms Server.C11_counterexample
 #print axioms Server.C11_current
+#print axioms Server.C11_bounded
+#print axioms Server.C11_terminates
+#print axioms Server.C11_current_bounded
+#print axioms Server.mu_step
